@@ -149,6 +149,12 @@ structure World where
   thermostats : List (Nat × DS) := []
   tAvail : Nat := 0
   schedules : List (String × List (List Bool)) := []
+  /-- product info (UID response) has arrived -/
+  known : Bool := false
+  /-- ecoMAX parameter dispatches parked in `await self.get(ATTR_PRODUCT)`, in arrival order -/
+  pendingEco : List P2.Params := []
+  /-- mixer parameter dispatches (mixer index, items) parked in `await self.parent.get(ATTR_PRODUCT)` -/
+  pendingMix : P2.Blocks := []
 deriving Repr, Inhabited
 
 /-- `devices.setdefault(i, Device(i))` then apply `f` to its dataset -/
@@ -176,6 +182,9 @@ def World.setDs (w : World) : Dev → DS → World
   | .thermostat i, ds => { w with thermostats := w.thermostats.map (fun p => if p.1 == i then (p.1, ds) else p) }
 
 inductive Event where
+  /-- the UID response: product info becomes available; the parked handlers run, in arrival order,
+  with the table of the controller's real product type -/
+  | uid
   | ecomaxParams (msg : List Byte)
   | mixerParams (msg : List Byte)
   | thermostatsAvailable (n : Nat)
@@ -265,17 +274,33 @@ def applyMixers (pt : Product) (mixers : List (Nat × DS)) (blocks : P2.Blocks) 
 def applyThermostats (ths : List (Nat × DS)) (blocks : P2.Blocks) : List (Nat × DS) :=
   applyBlocks thermostatBlock ths blocks
 
+/-- the parked ecoMAX handlers resume one after the other -/
+def applyPendingEco (pt : Product) : DS → List P2.Params → DS
+  | ds, [] => ds
+  | ds, items :: rest => applyPendingEco pt (applyEcomaxItems pt ds ds items) rest
+
 def scheduleName (i : Nat) : Option String := Gen.schedules[i]?
 
 def step (pt : Product) (w : World) : Event → World × List Out
+  | .uid =>
+    if w.known then (w, []) else
+    ({ w with known := true, pendingEco := [], pendingMix := [],
+              ecomax := applyPendingEco pt w.ecomax w.pendingEco,
+              mixers := applyMixers pt w.mixers w.pendingMix }, [])
   | .ecomaxParams msg =>
     match P2.decodeEcomax msg with
     | .error _ => (w, [.decodeError])
-    | .ok (items, _) => ({ w with ecomax := applyEcomaxItems pt w.ecomax w.ecomax items }, [])
+    | .ok (items, _) =>
+      if w.known then ({ w with ecomax := applyEcomaxItems pt w.ecomax w.ecomax items }, [])
+      else ({ w with pendingEco := w.pendingEco ++ [items] }, [])   -- `_handle_ecomax_parameters` awaits the product
   | .mixerParams msg =>
     match P2.decodeMixer msg with
     | .error _ => (w, [.decodeError])
-    | .ok (blocks, _) => ({ w with mixers := applyMixers pt w.mixers blocks }, [])
+    | .ok (blocks, _) =>
+      if w.known then ({ w with mixers := applyMixers pt w.mixers blocks }, [])
+      else
+        -- the Mixer objects are created at once; each `Mixer._handle_mixer_parameters` awaits the parent's product
+        ({ w with mixers := applyBlocks (fun _ _ ds => ds) w.mixers blocks, pendingMix := w.pendingMix ++ blocks }, [])
   | .thermostatsAvailable n => ({ w with tAvail := n }, [])
   | .thermostatParams msg =>
     match P2.decodeThermo (some w.tAvail) msg with
